@@ -117,7 +117,9 @@ qb_log_format_fini(void)
 void
 qb_log_format_set(int32_t target, const char *format)
 {
-	char modified_format[256];
+	char *modified_format;
+	size_t size;
+	const char *c;
 	struct qb_log_target *t = qb_log_target_get(target);
 
 	pthread_rwlock_wrlock(&_formatlock);
@@ -125,8 +127,19 @@ qb_log_format_set(int32_t target, const char *format)
 	free(t->format);
 
 	if (format) {
-		qb_log_target_format_static(target, format, modified_format);
+		/* the literal text, plus room for every directive's expansion
+		 * (one field never needs more than a whole line) */
+		size = strlen(format) + 1;
+		for (c = format; *c; c++) {
+			if (*c == '%') {
+				size += QB_LOG_ABSOLUTE_MAX_LEN;
+			}
+		}
+		modified_format = malloc(size);
+		assert(modified_format != NULL);
+		qb_log_target_format_static(target, format, modified_format, size);
 		t->format = strdup(modified_format);
+		free(modified_format);
 	} else {
 		t->format = strdup("[%p] %b");
 	}
@@ -224,7 +237,7 @@ _strcpy_cutoff(char *dest, const char *src, size_t cutoff, int ralign,
  */
 void
 qb_log_target_format_static(int32_t target, const char * format,
-			    char *output_buffer)
+			    char *output_buffer, size_t output_buffer_len)
 {
 	char tmp_buf[255];
 	unsigned int format_buffer_idx = 0;
@@ -283,19 +296,29 @@ qb_log_target_format_static(int32_t target, const char * format,
 				break;
 
 			default:
+				/* not ours: keep the directive as it is spelled
+				 * (it may be cut short by the end of the string) */
 				p = &format[percent_buffer_idx];
-				cutoff = (format_buffer_idx - percent_buffer_idx + 1);
+				cutoff = (format_buffer_idx - percent_buffer_idx);
+				if (format[format_buffer_idx] != '\0') {
+					cutoff += 1;
+				}
 				ralign = QB_FALSE;
 				break;
 			}
+			if (cutoff > QB_LOG_ABSOLUTE_MAX_LEN - 1) {
+				cutoff = QB_LOG_ABSOLUTE_MAX_LEN - 1;
+			}
 			len = _strcpy_cutoff(output_buffer + output_buffer_idx,
 					     p, cutoff, ralign,
-					     (t->max_line_length -
+					     (output_buffer_len -
 					      output_buffer_idx));
 			output_buffer_idx += len;
-			format_buffer_idx += 1;
+			if (format[format_buffer_idx] != '\0') {
+				format_buffer_idx += 1;
+			}
 		}
-		if (output_buffer_idx >= t->max_line_length - 1) {
+		if (output_buffer_idx >= output_buffer_len - 1) {
 			break;
 		}
 	}
